@@ -128,3 +128,11 @@ Theorem C20_label_updates_from_source :
           ["transform_compressible"; "transform_pseudo_instructions"; "resolve_aligns"]%string = true.
 Proof. exact Proofs.PassOrder.label_updates_ok. Qed.
 Print Assumptions C20_label_updates_from_source.
+
+(* ---- the model is a FUNCTION of the program and the options, and so is the code it models: the effect summary regenerated from asm.py
+   passes summary_ok (no module-level object written by anything reachable from assemble(), no mutable default, no set iteration order
+   consumed; Proofs/Effects.v noninterference) -- a memo table or cache that outlives a call makes a pure model unfaithful *)
+From BB Require Gen.Effects Proofs.Effects Proofs.EffectsOk.
+Theorem C20_assemble_is_a_function_of_its_inputs : Proofs.Effects.summary_ok Gen.Effects.summary = true.
+Proof. exact Proofs.EffectsOk.summary_ok_holds. Qed.
+Print Assumptions C20_assemble_is_a_function_of_its_inputs.
